@@ -1354,7 +1354,8 @@ def c14(tr, cx):
             for i in nd['inds']:
                 if i['id'] in nd['intr'] or i['blocked']: continue
                 tr.count('C14.pending_checks')
-                if i['server'] is not None and i['sed'] is not False and i['sed'] < T:
+                inf_node = nk(spec, nid)[1] == 'inf'   # no server objects: everybody present and not blocked is in service
+                if (i['server'] is not None or inf_node) and i['sed'] is not False and i['sed'] < T:
                     tr.v('C14', 'service_end_due_before_horizon_still_pending', (nid, i['id'], str(i['sed']), T)); break
                 has_ren = bool(spec.get('reneging')) and spec['reneging'].get(i['cls'], [None] * nid)[nid - 1] is not None   # (a stale date from an earlier node is not used here)
                 if i['server'] is None and has_ren and i['ren'] != INF and i['ren'] < T and nk(spec, nid)[1] in ('int', 'schedule'):
